@@ -11,6 +11,8 @@ mod token;
 mod tokenizer;
 mod type_checker;
 mod unifier;
+#[cfg(feature = "verif")]
+mod verif_hooks;
 
 use crate::{
     error::{Error, throw},
